@@ -221,6 +221,9 @@ def main():
             shutil.rmtree(wt, ignore_errors=True)
     if meta.get("confirmed") and meta.get("tests_same", True) and not a.confirm_only:
         meta["checks"] = run_checks(dest, [a.prop] + a.also, a.tier)
+        if PAIR:
+            meta["ran_in"] = ("builder worktrees: the framework at /verif HEAD (%s) with PMS_REPO = a scratch worktree of /repo HEAD carrying the patch; "
+                              "/repo itself untouched" % sh("git -C %s rev-parse --short HEAD" % PAIR[0])[1].strip())
         meta["caught"] = any(c["caught"] for c in meta["checks"])
         meta["with_failing_input"] = any(c["with_failing_input"] for c in meta["checks"])
     with open(mp, "w") as f:
